@@ -4,6 +4,9 @@ from common import *
 import core, c01, c04
 
 
+CLASSIFY_VK = lambda v, p, l: None if v in ("ok", "unknown") else ("vkey:" + ("deviation" if v == "dev" else "verdict-mismatch"))
+
+
 def run(tier):
     res = Result("C15", tier, "model_checking")
     res.assumptions = ["abstraction sites: occurrences whose evaluation context is the scope the variable is bound in (rule body, when blocks, when conditions); the documented exception (emptiness test on a bare variable) is excluded",
@@ -25,6 +28,11 @@ def run(tier):
                           expect_relations=True)
     # 3. which scope served which variable: hook events against GuardMachine
     c04.memo_trace(res, tier, 1000 if tier == "quick" else 15000, ["core", "full"], seed_mul=32452843)
+    # variable keys in the middle of a query (`map.%v.x`): an enumerated family through TraceEval
+    tr_vk = os.path.join(WORK, "trace_%s_vkey.ndjson" % res.prop)
+    gv(["record-vkey", "--out", tr_vk])
+    core.validate_trace(res, "TraceEval", tr_vk, CLASSIFY_VK)
+    os.remove(tr_vk)
     res.cov["rule"] = ("AbsOK over the single-clause space (literal / query right-hand side and every query prefix through a "
                        "file- and rule-level variable, shadowing, unused variables); R: random programs with one occurrence "
                        "abstracted (AL, AQ, AR), unused / shadowed variables (UN, SH) and clauses turned into parameterised "
